@@ -471,8 +471,8 @@ impl CaseDriver for C14 {
             t.pick(2, 3)
         }
     }
-    fn unit_target(&self, _t: Tier) -> usize {
-        3000
+    fn unit_target(&self, t: Tier) -> usize {
+        t.pick(3000, 24000)
     }
     fn gen(&self, _t: Tier, c: &mut Chooser) -> Case {
         gen(self.four, c)
